@@ -72,6 +72,8 @@ func init() {
 		var groupLoop, fanOut []string
 		var keyCall, poolRange, taskCheck, dupCount string
 		var storeCalls, checkParams []string
+	var taskReturns []string // return statements of the pool task, in source order
+	var poolGoCalls int
 		ifHead := func(is *ast.IfStmt) string {
 			if is.Init != nil {
 				return src(fset, is.Init) + "; " + src(fset, is.Cond)
@@ -117,6 +119,33 @@ func init() {
 					if len(x.Body.List) > 0 {
 						taskCheck = src(fset, x.Body.List[0])
 					}
+					// the task handed to the pool: every `return` of the function literal (the pool is built
+					// WithCancelOnError: a non-nil return value cancels the context of all other tasks)
+					ast.Inspect(x.Body, func(n ast.Node) bool {
+						ce, ok := n.(*ast.CallExpr)
+						if !ok || src(fset, ce.Fun) != "pool.Go" || len(ce.Args) != 1 {
+							return true
+						}
+						fl, ok := ce.Args[0].(*ast.FuncLit)
+						if !ok {
+							return true
+						}
+						poolGoCalls++
+						var walk func(n ast.Node) bool
+						walk = func(n ast.Node) bool {
+							switch z := n.(type) {
+							case *ast.FuncLit:
+								if z != fl {
+									return false // returns of nested literals are not returns of the task
+								}
+							case *ast.ReturnStmt:
+								taskReturns = append(taskReturns, src(fset, z))
+							}
+							return true
+						}
+						ast.Inspect(fl, walk)
+						return false
+					})
 					ast.Inspect(x.Body, func(n ast.Node) bool {
 						switch y := n.(type) {
 						case *ast.CallExpr:
@@ -169,6 +198,34 @@ func init() {
 		if strings.Index(body, "_ = pool.Wait()") > strings.Index(body, "results := map[CorrelationID]") {
 			return Result{}, fmt.Errorf("Execute: fan-out no longer after pool.Wait()")
 		}
+		if poolGoCalls != 1 || len(taskReturns) == 0 {
+			return Result{}, fmt.Errorf("Execute: expected one pool.Go(func literal) in the pool loop with return statements, found %d calls / %d returns", poolGoCalls, len(taskReturns))
+		}
+		// how the pool is built: the statement in Execute and the option chain of concurrency.NewPool
+		poolCtor := ""
+		for _, st := range ex.Body.List {
+			if as, ok := st.(*ast.AssignStmt); ok && len(as.Lhs) == 1 && src(fset, as.Lhs[0]) == "pool" {
+				poolCtor = src(fset, as)
+			}
+		}
+		fsetP, fP, err := parseFile(repo, "internal/concurrency/concurrency.go")
+		if err != nil {
+			return Result{}, err
+		}
+		np := findFunc(fP, "", "NewPool")
+		if np == nil {
+			return Result{}, fmt.Errorf("concurrency.NewPool not found")
+		}
+		var poolOptions []string
+		ast.Inspect(np.Body, func(n ast.Node) bool {
+			if ce, ok := n.(*ast.CallExpr); ok {
+				if se, ok := ce.Fun.(*ast.SelectorExpr); ok {
+					poolOptions = append(poolOptions, se.Sel.Name)
+				}
+			}
+			return true
+		})
+		_ = fsetP
 
 		// ---- validateCorrelationIDs
 		vc := findFunc(f, "", "validateCorrelationIDs")
@@ -245,6 +302,11 @@ func init() {
 		sb.WriteString("def taskCheck : String := " + leanStr(taskCheck) + "\n")
 		sb.WriteString("def checkParams : List String := " + leanStrList(checkParams) + "\n")
 		sb.WriteString("def storeCalls : List String := " + leanStrList(storeCalls) + "\n")
+		sb.WriteString("/-- every return statement of the function literal handed to pool.Go -/\n")
+		sb.WriteString("def poolTaskReturns : List String := " + leanStrList(taskReturns) + "\n")
+		sb.WriteString("def poolCtor : String := " + leanStr(poolCtor) + "\n")
+		sb.WriteString("/-- selector calls in concurrency.NewPool (outermost first) -/\n")
+		sb.WriteString("def poolOptions : List String := " + leanStrList(poolOptions) + "\n")
 		sb.WriteString("def fanOutLoop : List String := " + leanStrList(fanOut) + "\n")
 		sb.WriteString("def duplicateCount : String := " + leanStr(dupCount) + "\n")
 		sb.WriteString("def defaultMaxChecks : Nat := " + strconv.Itoa(maxChecks) + "\n")
@@ -254,6 +316,7 @@ func init() {
 			"checkCacheKeyArgs": ckArgs, "invariantKeyArgs": invArgs, "executeGuards": guards,
 			"validateIdsStmts": vstmts, "groupLoop": groupLoop, "checkParams": checkParams,
 			"fanOutLoop": fanOut, "defaultMaxChecks": maxChecks, "defaultMaxConcurrent": maxConc,
+			"poolTaskReturns": taskReturns, "poolCtor": poolCtor, "poolOptions": poolOptions,
 		}}, nil
 	})
 }
